@@ -14,7 +14,7 @@ Scope.  The theorems are one-step statements about the EFFECT stage of each oper
 after its branch point), for an arbitrary world, plus histories of one Arc object
 (`ArcObj.Run`).  "For the interleaving that was executed" is: whatever order the scheduler ran the
 effect stages in, each computes the reference model's result from the count it finds.  Whether
-the scheduler explores all orders is C01 (see `Dep.arc` for the root of finding F10).
+the scheduler explores all orders is C01 (see `Dep.arc` for the repair of finding F10).
 -/
 import LoomVerif.Proofs.C11SC
 
@@ -334,14 +334,17 @@ theorem ArcObj.inspect_acquires {ok : World → Prop} {s : ArcSt} {drops : List 
 
 /-! ## 4. the dependence tables of the Arc object -/
 
-/-- **C11.4.**  `last_dependent_access` / `set_last_access` of `rt/arc.rs` as equations.  In
-particular the last dependent access of a `RefDec` is `last_ref_dec` and nothing else: recording
-an `Inspect` (or a `RefInc`) never changes what a later `RefDec` is compared against, although an
-`Inspect` after a `RefDec` IS compared against that `RefDec`.  The relation is asymmetric; this is
-the root of finding F10 (`strong_count(&a) ‖ drop(a2)` explores one order only). -/
+/-- **C11.4.**  `last_dependent_access` / `set_last_access` of `rt/arc.rs` as equations.  The last
+dependent access of a `RefDec` is the LATER (by position in the path) of `last_ref_dec` and
+`last_ref_inspect` (repair of finding F10: before, it was `last_ref_dec` alone, so that
+`strong_count(&a) ‖ drop(a2)` explored one order only); it never depends on `last_ref_inc`. -/
 theorem Dep.arc (s : ArcSt) (pid : Nat) (v : VV) :
     s.lastDependentAccess .arcInc = s.lastInspect ∧
-    s.lastDependentAccess .arcDec = s.lastDec ∧
+    s.lastDependentAccess .arcDec =
+      (match s.lastDec, s.lastInspect with
+       | some d, some i => if i.pathId > d.pathId then some i else some d
+       | some d, none => some d
+       | none, i => i) ∧
     s.lastDependentAccess .arcInspect =
       (match s.lastMod with
        | some .inc => s.lastInc
@@ -350,22 +353,62 @@ theorem Dep.arc (s : ArcSt) (pid : Nat) (v : VV) :
     s.setLastAccess .arcInc pid v = { s with lastMod := some .inc, lastInc := some ⟨pid, v⟩ } ∧
     s.setLastAccess .arcDec pid v = { s with lastMod := some .dec, lastDec := some ⟨pid, v⟩ } ∧
     s.setLastAccess .arcInspect pid v = { s with lastInspect := some ⟨pid, v⟩ } ∧
-    -- what a `RefDec` is compared against is a function of `last_ref_dec` alone: it is never
-    -- `last_ref_inspect` (nor `last_ref_inc`) …
-    (∀ s' : ArcSt, s'.lastDec = s.lastDec →
-      s'.lastDependentAccess .arcDec = s.lastDependentAccess .arcDec) :=
-  ⟨rfl, rfl, rfl, rfl, rfl, rfl, fun _ h => h⟩
+    -- what a `RefDec` is compared against is a function of `last_ref_dec` and `last_ref_inspect`
+    -- alone (never of `last_ref_inc`) …
+    (∀ s' : ArcSt, s'.lastDec = s.lastDec → s'.lastInspect = s.lastInspect →
+      s'.lastDependentAccess .arcDec = s.lastDependentAccess .arcDec) ∧
+    -- … and it is one of the two, the one with the larger path position
+    (∀ acc, s.lastDependentAccess .arcDec = some acc →
+      (s.lastDec = some acc ∨ s.lastInspect = some acc) ∧
+      (∀ d, s.lastDec = some d → d.pathId ≤ acc.pathId) ∧
+      (∀ i, s.lastInspect = some i → i.pathId ≤ acc.pathId)) := by
+  refine ⟨rfl, rfl, rfl, rfl, rfl, rfl, fun s' h1 h2 => ?_, fun acc h => ?_⟩
+  · unfold ArcSt.lastDependentAccess
+    simp only [h1, h2]
+  · unfold ArcSt.lastDependentAccess at h
+    cases hd : s.lastDec with
+    | none =>
+      rw [hd] at h
+      simp only at h
+      refine ⟨Or.inr h, fun d hd' => (by cases hd'), fun i hi => ?_⟩
+      rw [h] at hi; cases hi; exact Nat.le_refl _
+    | some d =>
+      cases hi : s.lastInspect with
+      | none =>
+        rw [hd, hi] at h
+        simp only [Option.some.injEq] at h
+        subst h
+        exact ⟨Or.inl rfl, fun d' hd' => by cases hd'; exact Nat.le_refl _,
+          fun i hi' => by cases hi'⟩
+      | some i =>
+        rw [hd, hi] at h
+        simp only at h
+        by_cases hlt : i.pathId > d.pathId
+        · rw [if_pos hlt] at h
+          cases h
+          exact ⟨Or.inr rfl, fun d' hd' => by cases hd'; exact Nat.le_of_lt hlt,
+            fun i' hi' => by cases hi'; exact Nat.le_refl _⟩
+        · rw [if_neg hlt] at h
+          cases h
+          exact ⟨Or.inl rfl, fun d' hd' => by cases hd'; exact Nat.le_refl _,
+            fun i' hi' => by cases hi'; exact Nat.le_of_not_lt hlt⟩
 
-/-- … spelled out on histories of accesses: after an `Inspect` (or `RefInc`) is recorded, the
-dependent access of a later `RefDec` is what it was before; whereas after a `RefDec` is recorded,
-the dependent access of a later `Inspect` is that `RefDec`. -/
-theorem Dep.arc_asymmetric (s : ArcSt) (pid : Nat) (v : VV) :
-    (s.setLastAccess .arcInspect pid v).lastDependentAccess .arcDec =
-      s.lastDependentAccess .arcDec ∧
+/-- … spelled out on histories of accesses: after an `Inspect` is recorded at a path position later
+than the last decrement, the dependent access of a later `RefDec` is that `Inspect`; after a `RefDec` is
+recorded, the dependent access of a later `Inspect` is that `RefDec`: the relation between `Inspect`
+and `RefDec` is symmetric (it was asymmetric before the repair of finding F10).  A `RefInc` still
+never changes what a later `RefDec` is compared against, nor a `RefDec` what a later `RefInc` is. -/
+theorem Dep.arc_symmetric (s : ArcSt) (pid : Nat) (v : VV) :
+    ((∀ d, s.lastDec = some d → d.pathId < pid) →
+      (s.setLastAccess .arcInspect pid v).lastDependentAccess .arcDec = some ⟨pid, v⟩) ∧
     (s.setLastAccess .arcInc pid v).lastDependentAccess .arcDec = s.lastDependentAccess .arcDec ∧
     (s.setLastAccess .arcDec pid v).lastDependentAccess .arcInspect = some ⟨pid, v⟩ ∧
-    (s.setLastAccess .arcDec pid v).lastDependentAccess .arcInc = s.lastDependentAccess .arcInc :=
-  ⟨rfl, rfl, rfl, rfl⟩
+    (s.setLastAccess .arcDec pid v).lastDependentAccess .arcInc = s.lastDependentAccess .arcInc := by
+  refine ⟨fun hl => ?_, rfl, rfl, rfl⟩
+  unfold ArcSt.setLastAccess ArcSt.lastDependentAccess
+  cases hd : s.lastDec with
+  | none => simp
+  | some d => simp [hl d hd]
 
 /-! ## 5. agreement with the reference semantics `Spec/SC.lean` (counter component) -/
 
